@@ -87,6 +87,18 @@ Theorem C12_no_validation_when_not_required : forall e f dat ifs,
 Proof. exact require_false_no_validation. Qed.
 Print Assumptions C12_no_validation_when_not_required.
 
+(* built-in templates: validation does not depend on require-template-schema-exists (the flag
+   only waives the existence of a schema for custom templates) *)
+Theorem C12_builtin_ignores_require_flag : forall e f b,
+  is_remote (f_template f) = false ->
+  spec_file e {| f_path := f_path f; f_template := f_template f; f_schema := f_schema f;
+                 f_require := b; f_data := f_data f; f_ifaces := f_ifaces f; f_rest_ok := f_rest_ok f |}
+  = spec_file e f.
+Proof.
+  intros e f b H. unfold spec_file, template_ok, select_schema, data_valid; simpl. rewrite H. reflexivity.
+Qed.
+Print Assumptions C12_builtin_ignores_require_flag.
+
 (* ---- why wrapping Schema() / Template() in a retry is unsound as the code stands ------------------ *)
 (* RemoteTemplate sets its "downloaded" flag BEFORE the download.  In [run] a failed download
    aborts the run, so the flag is harmless (C12_cache_transparent).  But a second call on the same
